@@ -74,7 +74,8 @@ def _lru_body(maxsize, n, i0, i1, i2, ki):
         disposed.append(v)
         lock_held_in_dispose.append(box["c"].lock._is_owned())
 
-    c = RecentlyUsedContainer(maxsize, dispose_func=dispose)
+    nodispose = bool(getattr(P, "nodispose", False))
+    c = RecentlyUsedContainer(maxsize, dispose_func=None if nodispose else dispose)
     box["c"] = c
     mon = Monitored()
     c._container = mon
@@ -181,6 +182,8 @@ def _lru_body(maxsize, n, i0, i1, i2, ki):
                 exp_disposed.append(ref.pop(0)[1])
     if len(c) > maxsize:
         return _fail("len %d > maxsize" % len(c))
+    if nodispose:
+        exp_disposed = []
     if disposed != exp_disposed:
         return _fail("dispose calls %r, expected %r" % (disposed, exp_disposed))
     if c.keys() != set(k for k, _ in ref):
@@ -188,7 +191,7 @@ def _lru_body(maxsize, n, i0, i1, i2, ki):
     # probe suffix: maxsize fresh inserts evict the survivors in recency order
     for j in range(maxsize):
         c["fresh%d" % j] = 1000 + j
-    if disposed != exp_disposed + [v for _, v in ref]:
+    if not nodispose and disposed != exp_disposed + [v for _, v in ref]:
         return _fail("eviction order %r, expected %r" % (disposed[len(exp_disposed):], [v for _, v in ref]))
     if any(lock_held_in_dispose):
         return _fail("dispose callback invoked while the container lock is held")
@@ -634,22 +637,15 @@ def _race_once(num_pools, wop, xops, pre, w1, x1, w2):
     out = {}
     try:
         pm = RacePM(num_pools=num_pools)
-        disposed_objs = []
-        orig_dispose = pm.pools.dispose_func
-
-        def dispose(p):
-            disposed_objs.append(p)
-            if orig_dispose:
-                orig_dispose(p)
-        pm.pools.dispose_func = dispose
+        disposed_objs = []         # pools that left the cache (the manager installs no dispose callback: observed by difference)
+        evict_log = []
         pre_pools = {}
         for k in pre:
             pre_pools[k] = pm.connection_from_url(RORIG[k])
         pre_alive = {}
         for k, p in pre_pools.items():
-            if not any(p is d for d in disposed_objs):
+            if any(p is c for c in OrderedDict.values(pm.pools._container)):
                 pre_alive[k] = p
-        del disposed_objs[:]
         # arm the scheduler
         d = TickDict()
         for k, v in pm.pools._container.items():
@@ -740,14 +736,12 @@ def _race_once(num_pools, wop, xops, pre, w1, x1, w2):
         final_obs = [(k, v) for k, v in OrderedDict.items(raw)]
         if len(final_obs) > num_pools:
             return _fail("%s: %d pools cached, num_pools=%d" % (where, len(final_obs), num_pools))
-        for p in disposed_objs:
-            if sum(1 for q in disposed_objs if q is p) != 1:
-                return _fail("%s: a pool was disposed more than once" % where)
+        for cand in list(pre_alive.values()) + list(obs_pool.values()):
+            if not any(cand is c for _, c in final_obs) and not any(cand is q for q in disposed_objs):
+                disposed_objs.append(cand)
         for _, p in final_obs:
             if p.pool is None:
                 return _fail("%s: a pool that is still cached was closed" % where)
-            if any(p is q for q in disposed_objs):
-                return _fail("%s: a pool that is still cached was disposed" % where)
         explained = False
         why = ""
         for order in _interleavings(wl, xl):
@@ -778,7 +772,7 @@ def _race_once(num_pools, wop, xops, pre, w1, x1, w2):
         cached_addrs = [(p.host, p.port) for _, p in final_obs]
         out.clear()
         obs_pool = got = pre_pools = pre_alive = None
-        p = q = o = v = label = final_obs = raw = d = None
+        p = q = o = v = label = final_obs = raw = d = cand = c = None
         pm.log = None
         del disposed_objs[:]
         leaked = [s for s in netw.socks if not s.closed and (s.address[0], s.address[1]) not in cached_addrs]
@@ -825,6 +819,10 @@ def JOBS(tier):
     jobs = []
     for oi in range(len(OPS)):
         jobs.append({"func": "c17_lru_step", "part": {"op": oi}, "timeout": t})
+        if OPS[oi] in ("set", "del", "clear", "pop", "update", "setdefault", "get"):
+            # the same step for a container built WITHOUT a dispose callback (what PoolManager does): contents, KeyErrors
+            # and the lock discipline must not depend on it
+            jobs.append({"func": "c17_lru_step", "part": {"op": oi, "nodispose": True}, "timeout": t})
     for o1 in range(4):
         jobs.append({"func": "c17_lru_seq", "part": {"o1": o1, "length": 3}, "timeout": t})
     for o1 in range(4):
